@@ -107,4 +107,28 @@ theorem emitFound_pastes_return :
     emitFound body = .pasted ∧ emitFixed body = .closureCall := by
   constructor <;> rfl
 
+/-! ## a closure that declares its return type (defect D19)
+
+`|lex| -> bool { true }`: what follows the parameter list is not a body.  As found the tokens `-> bool { true }` were pasted
+as the body (unparsable output); as repaired the derive reports it.  Only `-` directly followed by `>` counts: `|lex| -1` is a
+body. -/
+
+def declaresReturn : CToks → Bool
+  | .cons (.punct '-') (.cons (.punct '>') _) => true
+  | _ => false
+
+inductive Verdict where
+  | accepted | refused
+deriving DecidableEq, Repr
+
+def headFound (_ : CToks) : Verdict := .accepted
+def headFixed (afterParams : CToks) : Verdict := if declaresReturn afterParams then .refused else .accepted
+
+theorem headFixed_refuses_arrow (rest : CToks) : headFixed (.cons (.punct '-') (.cons (.punct '>') rest)) = .refused := rfl
+
+/-- a body that begins with a minus sign is still a body (`|lex| -1`, defect D15) -/
+theorem headFixed_keeps_minus (rest : CToks) : headFixed (.cons (.punct '-') (.cons .lit rest)) = .accepted := rfl
+
+theorem headFound_accepts_arrow (rest : CToks) : headFound (.cons (.punct '-') (.cons (.punct '>') rest)) = .accepted := rfl
+
 end Logos.CallbackEmit
